@@ -57,6 +57,19 @@ def dedupRows (key : Seq → Seq) : List (String × Seq) → List (Seq × String
       dedupRows key t (acc.map fun g => if g.1 == key r.2 then (g.1, g.2.1, g.2.2.1, g.2.2.2 ++ [r.1]) else g)
     else dedupRows key t (acc ++ [(key r.2, r.1, r.2, [r.1])])
 
+/-- `ReverseComplementSequences` by its meaning: the names are taken in the order given; a name designates the first
+row carrying it (a name no row carries designates nothing); the designated row has every residue replaced by its IUPAC
+complement and the order of its residues reversed (a name given twice: twice).  `none`: a designated row holds a
+residue without a complement. -/
+def revcompNamedRef : List String → List (String × Seq) → Option (List (String × Seq))
+  | [], rows => some rows
+  | n :: t, rows =>
+    match firstNamed n rows with
+    | none => revcompNamedRef t rows
+    | some r =>
+      if r.2.any (fun c => (complementByte c).isNone) then none
+      else revcompNamedRef t (updateFirst n (fun s => (s.map fun c => (complementByte c).getD c).reverse) rows)
+
 /-- outcome of a step: the new state (`none` = the documented behaviour leaves the state unspecified
 after this error) and the status -/
 def stepOp (b : SBag) : Op → Option SBag × String
@@ -231,5 +244,13 @@ def stepOp (b : SBag) : Op → Option SBag × String
     if a == 1 && (d == NUCLEOTIDS || d == BOTH) then (some { b with alphabet := NUCLEOTIDS }, "ok")
     else if a == 0 && (d == AMINOACIDS || d == BOTH) then (some { b with alphabet := AMINOACIDS }, "ok")
     else (some b, "err")
+  | .revcompSeqs names =>
+    -- only defined on nucleotides (an error otherwise, nothing changed); the rows designated by the names are
+    -- reverse-complemented (`revcompNamedRef`), everything else stays; a residue without a complement in a designated
+    -- row is an error after which the content is unspecified
+    if b.alphabet != NUCLEOTIDS then (some b, "err") else
+    match revcompNamedRef names b.rows with
+    | none => (none, "err")
+    | some rows => (some { b with rows := rows }, "ok")
 
 end Gv.Spec
